@@ -15,6 +15,7 @@
   length + 1: every iteration consumes at least one byte).
 -/
 import SonicSpec.Model.JsonTree
+import SonicSpec.Generated.Consts
 namespace SonicSpec.Search
 open SonicSpec SonicSpec.Json
 
@@ -386,5 +387,138 @@ end
     Like the Go function it does not look at what follows the first value. -/
 def preorder (s : Bytes) : Option (List Event) :=
   (travVal (s.length + 1) (skipWs s)).map (·.1)
+
+/-! ## Preorder with its nesting bound (ast/visitor.go:175/238 after commit 5627bad: `depth >=
+    types.MAX_RECURSE` on entry of decodeArray/decodeObject gives ERR_RECURSE_EXCEED_MAX; the
+    counter is restored on EVERY exit by a deferred decrement) -/
+
+mutual
+/-- real nesting depth of a value: number of containers on its deepest path -/
+def depth : JVal → Nat
+  | .arr xs => 1 + depthElems xs
+  | .obj kvs => 1 + depthMembers kvs
+  | _ => 0
+def depthElems : List JVal → Nat
+  | [] => 0
+  | x :: xs => max (depth x) (depthElems xs)
+def depthMembers : List (Bytes × JVal) → Nat
+  | [] => 0
+  | (_, v) :: kvs => max (depth v) (depthMembers kvs)
+end
+
+/-- outcome of the bounded traversal -/
+inductive TRes (α : Type) where
+  | ok (a : α)
+  | syntax        -- any parsing error
+  | tooDeep       -- ERR_RECURSE_EXCEED_MAX
+deriving Repr, DecidableEq
+
+mutual
+/-- `traverser.decodeValue` with the depth counter: `k` containers are open, at most `L` may be -/
+def travValD (L : Nat) : Nat → Nat → Bytes → TRes (List Event × Bytes)
+  | 0, _, _ => .syntax
+  | n+1, k, s =>
+    match s with
+    | 110 :: 117 :: 108 :: 108 :: r => .ok ([.null], r)
+    | 116 :: 114 :: 117 :: 101 :: r => .ok ([.bool true], r)
+    | 102 :: 97 :: 108 :: 115 :: 101 :: r => .ok ([.bool false], r)
+    | 34 :: r =>
+      match scanString r with
+      | some (b, t) => .ok ([.str (unescapeKey b)], t)
+      | none => .syntax
+    | 91 :: r =>
+      if k ≥ L then .tooDeep
+      else match skipWs r with
+        | 93 :: t => .ok ([.arrBegin, .arrEnd], t)
+        | r' =>
+          match travElemsD L n (k + 1) r' with
+          | .ok (es, t) => .ok (.arrBegin :: es, t)
+          | .syntax => .syntax
+          | .tooDeep => .tooDeep
+    | 123 :: r =>
+      if k ≥ L then .tooDeep
+      else match skipWs r with
+        | 125 :: t => .ok ([.objBegin, .objEnd], t)
+        | r' =>
+          match travMembersD L n (k + 1) r' with
+          | .ok (es, t) => .ok (.objBegin :: es, t)
+          | .syntax => .syntax
+          | .tooDeep => .tooDeep
+    | _ =>
+      match scanNumber s with
+      | some (l, t) => .ok ([.num l], t)
+      | none => .syntax
+def travElemsD (L : Nat) : Nat → Nat → Bytes → TRes (List Event × Bytes)
+  | 0, _, _ => .syntax
+  | n+1, k, s =>
+    match travValD L n k s with
+    | .syntax => .syntax
+    | .tooDeep => .tooDeep
+    | .ok (ev, r) =>
+      match skipWs r with
+      | 44 :: t =>
+        match travElemsD L n k (skipWs t) with
+        | .ok (es, t') => .ok (ev ++ es, t')
+        | .syntax => .syntax
+        | .tooDeep => .tooDeep
+      | 93 :: t => .ok (ev ++ [.arrEnd], t)
+      | _ => .syntax
+def travMembersD (L : Nat) : Nat → Nat → Bytes → TRes (List Event × Bytes)
+  | 0, _, _ => .syntax
+  | n+1, k, s =>
+    match s with
+    | 34 :: r =>
+      match scanString r with
+      | none => .syntax
+      | some (key, r1) =>
+        match skipWs r1 with
+        | 58 :: r2 =>
+          match travValD L n k (skipWs r2) with
+          | .syntax => .syntax
+          | .tooDeep => .tooDeep
+          | .ok (ev, r3) =>
+            match skipWs r3 with
+            | 44 :: t =>
+              match travMembersD L n k (skipWs t) with
+              | .ok (es, t') => .ok (.key (unescapeKey key) :: (ev ++ es), t')
+              | .syntax => .syntax
+              | .tooDeep => .tooDeep
+            | 125 :: t => .ok (.key (unescapeKey key) :: (ev ++ [.objEnd]), t)
+            | _ => .syntax
+        | _ => .syntax
+    | _ => .syntax
+end
+
+/-- `types.MAX_RECURSE`, re-read from the source on every run -/
+def maxRecurse : Nat := Gen.maxRecurse.toNat
+
+/-- `ast.Preorder` with nesting bound `L` (the real one: `preorderD maxRecurse`) -/
+def preorderD (L : Nat) (s : Bytes) : TRes (List Event) :=
+  match travValD L (s.length + 1) 0 (skipWs s) with
+  | .ok (es, _) => .ok es
+  | .syntax => .syntax
+  | .tooDeep => .tooDeep
+
+/-! ## a visitor that answers VisitOPSkip for every container opened below level `lvl`
+    (visitor.go:183/246: the traverser then skips the container with the fast skipper and calls
+    only the matching End callback) -/
+
+mutual
+def flattenSkip (lvl : Nat) : Nat → JVal → List Event
+  | k, .arr xs => if k ≥ lvl then [.arrBegin, .arrEnd] else .arrBegin :: (flattenSkipElems lvl (k + 1) xs ++ [.arrEnd])
+  | k, .obj kvs => if k ≥ lvl then [.objBegin, .objEnd] else .objBegin :: (flattenSkipMembers lvl (k + 1) kvs ++ [.objEnd])
+  | _, v => flatten v
+def flattenSkipElems (lvl : Nat) : Nat → List JVal → List Event
+  | _, [] => []
+  | k, x :: xs => flattenSkip lvl k x ++ flattenSkipElems lvl k xs
+def flattenSkipMembers (lvl : Nat) : Nat → List (Bytes × JVal) → List Event
+  | _, [] => []
+  | k, (key, v) :: kvs => .key (unescapeKey key) :: (flattenSkip lvl k v ++ flattenSkipMembers lvl k kvs)
+end
+
+/-! ## sequences of lookups on one node: in the model a lookup is a function of (document, path),
+    so the answers of a sequence are the answers of its elements -/
+
+def searchSeq (o : Options) (s : Bytes) (ps : List Path) : List (Res Bytes) := ps.map (search o s)
 
 end SonicSpec.Search
